@@ -1,5 +1,7 @@
 //! The build graph, a graph between files and commands.
 
+#[cfg(n2_verif)]
+use crate::verif::shim as std;
 use rustc_hash::FxHashMap;
 
 use crate::{
